@@ -26,7 +26,8 @@ DEFAULT_PROFILE = dict(
     subscript_whole_array_results=True, raise_=True, nested_calls=True,
     persistent_arrays=True, name_pool="plain", zero_trip=True, negative_consts=True,
     dead_code=True, cond_in_call_args=True, bare_power=True, ne_operator=True,
-    pow_of_pow=True, loop_bound_vars=True,
+    pow_of_pow=True, loop_bound_vars=True, fresh_names=False, lookups=False,
+    real_temps=None, uvec_temps=None, arr_temps=None, flag_temps=None, int_temps=None,
 )
 
 REAL_TEMPS = ["x", "y1", "z", "w", "acc", "err"]
@@ -37,7 +38,7 @@ FLAG_TEMPS = ["flag", "ok"]
 ADVERSARIAL = {
     "real": ["tmp", "temp", "tmp_0", "temp_0", "ifthenelse_result", "temp__state_y", "temp_x"],
     "uvec": ["temp_k1", "tmp_1", "temp"],
-    "flag": ["<cond>temp", "<cond>ifthenelse_cond", "<cond>"],
+    "flag": ["cond", "cond_0", "ifthenelse_cond"],
 }
 P_REAL = ["<p>s", "<p>last", "<state>r"]
 P_UVEC = ["<state>y", "<state>u", "<p>yold"]
@@ -73,6 +74,11 @@ class Gen:
         self.loop_env = {}    # loop var -> (lo, hi) known range while generating a looped statement
         self.phase_names = []
         self.features = set()
+        self.REAL_TEMPS = self.p["real_temps"] or REAL_TEMPS
+        self.UVEC_TEMPS = self.p["uvec_temps"] or UVEC_TEMPS
+        self.ARR_TEMPS = self.p["arr_temps"] or ARR_TEMPS
+        self.FLAG_TEMPS = self.p["flag_temps"] or FLAG_TEMPS
+        self.INT_TEMPS = self.p["int_temps"] or INT_TEMPS
 
     # ---- small helpers
     def choice(self, seq):
@@ -156,6 +162,9 @@ class Gen:
             opts.append("int")
         k = self.choice(opts)
         if k == "var":
+            if self.p["lookups"] and self.chance(20):
+                self.features.add("lookup")
+                return ["lookup", V(self.choice(reals)), self.choice(["real", "real", "imag"])]
             return V(self.choice(reals))
         if k == "int":
             cands = [V(n) for n in self.names_of(INT)] + [V(lv) for lv in self.loop_env]
@@ -311,7 +320,7 @@ class Gen:
 
     # ---- statements
     def op_assign_real(self):
-        name = self.fresh_or_existing(REAL, REAL_TEMPS, [n for n in P_REAL if self.types.get(n) == REAL])
+        name = self.fresh_or_existing(REAL, self.REAL_TEMPS, [n for n in P_REAL if self.types.get(n) == REAL])
         if name is None:
             return []
         rhs = self.real_expr(self.draw(st.integers(0, 3)))
@@ -324,7 +333,7 @@ class Gen:
         return [["assign", name, None, rhs, []]]
 
     def op_assign_flag(self):
-        name = self.fresh_or_existing(FLAG, FLAG_TEMPS)
+        name = self.fresh_or_existing(FLAG, self.FLAG_TEMPS)
         if name is None:
             return []
         rhs = self.bool_expr(self.draw(st.integers(0, 2)))
@@ -336,7 +345,7 @@ class Gen:
     def op_assign_int(self, depth):
         if depth > 0 or not self.p["int_vars"]:
             return []
-        cands = [n for n in INT_TEMPS if self.types.get(n, INT) == INT and n not in self.defined]
+        cands = [n for n in self.INT_TEMPS if self.types.get(n, INT) == INT and n not in self.defined]
         if not cands:
             return []
         name = self.choice(cands)
@@ -353,7 +362,7 @@ class Gen:
         if not uv:
             return []
         pers = [n for n in P_UVEC if self.types.get(n) == UVEC]
-        name = self.fresh_or_existing(UVEC, UVEC_TEMPS, pers)
+        name = self.fresh_or_existing(UVEC, self.UVEC_TEMPS, pers)
         if name is None:
             return []
         rhs = self.uvec_expr(self.draw(st.integers(0, 2)))
@@ -397,7 +406,7 @@ class Gen:
         if not self.p["arrays"]:
             return []
         pers = [n for n in P_ARR if isinstance(self.types.get(n), list) or False]
-        cands = [n for n in ARR_TEMPS if n not in self.types]
+        cands = [n for n in self.ARR_TEMPS if n not in self.types]
         if not cands:
             return []
         name = self.choice(cands)
@@ -474,7 +483,7 @@ class Gen:
         src = self.choice(arrs)
         n = self.defined[src][1]
         k = self.choice(["expr", "expr", "alias", "transpose", "matmul"])
-        cands = [x for x in ARR_TEMPS if x not in self.types or self.types[x] == ["arr", n]]
+        cands = [x for x in self.ARR_TEMPS if x not in self.types or self.types[x] == ["arr", n]]
         if not cands:
             return []
         name = self.choice(cands)
@@ -519,7 +528,7 @@ class Gen:
         k = self.choice(["f", "f", "g", "two", "none"])
         if k == "f" and uv:
             pers = [n for n in P_UVEC if self.types.get(n) == UVEC]
-            name = self.fresh_or_existing(UVEC, UVEC_TEMPS, pers)
+            name = self.fresh_or_existing(UVEC, self.UVEC_TEMPS, pers)
             if name is None:
                 return []
             t = self.real_expr(1)
@@ -533,8 +542,8 @@ class Gen:
                 return [["call", [name], "<func>f", [t], {"y": y}]]
             return [["call", [name], "<func>f", [t, y], {}]]
         if k == "two" and self.p["multi_result"]:
-            n1 = self.fresh_or_existing(REAL, REAL_TEMPS)
-            n2 = self.fresh_or_existing(REAL, REAL_TEMPS)
+            n1 = self.fresh_or_existing(REAL, self.REAL_TEMPS)
+            n2 = self.fresh_or_existing(REAL, self.REAL_TEMPS)
             if n1 is None or n2 is None or n1 == n2:
                 return []
             arg = self.real_expr(1)
@@ -550,7 +559,7 @@ class Gen:
                 arg = self.real_leaf()
             self.features.add("zero_result")
             return [["call", [], "<func>note", [arg], {}]]
-        name = self.fresh_or_existing(REAL, REAL_TEMPS, [n for n in P_REAL if self.types.get(n) == REAL])
+        name = self.fresh_or_existing(REAL, self.REAL_TEMPS, [n for n in P_REAL if self.types.get(n) == REAL])
         if name is None:
             return []
         arg = self.real_expr(1)
@@ -590,6 +599,12 @@ class Gen:
             return [["restart"]]
         return [["raise", self.choice(ERRORS), self.choice(["boom", "it failed badly", None])]]
 
+    def op_fresh(self):
+        """x = cb.fresh_var_name(prefix); x <- expr  (the name is only known at build time)"""
+        prefix = self.choice(["temp", "temp", "tmp", "x", "<cond>", "acc"])
+        self.features.add("fresh")
+        return [["fresh", prefix, self.real_expr(1)]]
+
     def op_time_advance(self):
         return [["assign", "<t>", None, normal(["sum", V("<t>"), V("<dt>")]), []]]
 
@@ -626,8 +641,12 @@ class Gen:
                 kinds += ["exit", "exit"]
             elif self.p["dead_code"]:
                 kinds += ["exit"] if self.chance(15) else []
+            if self.p["fresh_names"]:
+                kinds += ["fresh"]
             k = self.choice(kinds)
-            if k == "real":
+            if k == "fresh":
+                new = self.op_fresh()
+            elif k == "real":
                 new = self.op_assign_real()
             elif k == "uvec":
                 new = self.op_assign_uvec() if self.p["uvecs"] else []
@@ -790,6 +809,8 @@ def op_trees(op):
         return [op[1]]
     if k == "yield":
         return [op[1], op[3]]
+    if k == "fresh":
+        return [op[2]]
     return []
 
 
